@@ -292,6 +292,12 @@ func (it *Interp) store(fr *frame, p *PtrV, val Value) {
 	if p.obj.frozen {
 		it.unsupported("store through a slice-to-array-pointer conversion")
 	}
+	if p.obj.nowrite {
+		it.ex.report("barrier", it.site(fr.cur), "store into memory shared with concurrent readers of the packet")
+		if n := len(it.ex.Violations); n > 0 && it.ex.Violations[n-1].Kind == "barrier" {
+			it.ex.Violations[n-1].Key = "barrier|" + fr.cur.Parent().String() + "|" + it.srcLine(fr.cur)
+		}
+	}
 	if p.obj.input && it.barrier {
 		it.ex.report("barrier", it.site(fr.cur), "store into the caller's input buffer")
 	}
